@@ -344,6 +344,8 @@ def run(repo, rep, tier):
         raise AnalysisError('C10.R10: only %d functions fetch values with '
                             '.get()' % r10.sites)
     validation_implies_agreement(repo, rep)
+    status_follows_existence(repo, rep, 'C10.R13', lambda f: 'Class' not in f.name
+                             and 'Qualifier' not in f.name)
     # ---- R3 ---------------------------------------------------------------
     passthrough = {}      # function name -> param index of `copy`
     for path in MOCK_FILES:
@@ -770,3 +772,94 @@ def validation_implies_agreement(repo, rep):
                         'that disagrees with the class declaration instead '
                         'of rejecting it with CIM_ERR_INVALID_PARAMETER'
                         % (l, r, conds))
+
+
+# the CIM status code that goes with a failed existence test (DSP0200):
+# (store kind, the object exists?) -> code; exceptions by function
+STATUS_BY_EXISTENCE = {
+    ('instance', True): 'CIM_ERR_ALREADY_EXISTS',
+    ('class', True): 'CIM_ERR_ALREADY_EXISTS',
+    ('qualifier', True): 'CIM_ERR_ALREADY_EXISTS',
+    ('instance', False): 'CIM_ERR_NOT_FOUND',
+    ('qualifier', False): 'CIM_ERR_NOT_FOUND',
+    ('class', False): 'CIM_ERR_INVALID_CLASS',
+}
+STATUS_EXCEPTIONS = {
+    # the class itself is the target of the operation: NOT_FOUND (DSP0200
+    # ModifyClass / DeleteClass), not INVALID_CLASS
+    ('MainProvider.ModifyClass', 'class', False): 'CIM_ERR_NOT_FOUND',
+    ('MainProvider.DeleteClass', 'class', False): 'CIM_ERR_NOT_FOUND',
+}
+
+
+def status_follows_existence(repo, rep, rid, select):
+    """A CIMError raised because an existence test on a repository store
+    failed carries the status code of that situation: the object exists ->
+    CIM_ERR_ALREADY_EXISTS; an instance / qualifier declaration does not
+    exist -> CIM_ERR_NOT_FOUND; a class does not exist ->
+    CIM_ERR_INVALID_CLASS (NOT_FOUND where the class is the target itself).
+    The reference map of the property distinguishes these codes."""
+    from ..cfg import stmt_facts, GuardWalker
+    from ..stores import store_kind
+    r = rep.rule(rid, 'the status code of a refusal follows the existence '
+                 'test that failed')
+    for rel in MOCK_FILES:
+        m = repo.module(rel)
+        for f in m.all_funcs():
+            if not select(f) or not f.name[:1].isupper():
+                continue          # public operations: the key is the target
+            for n in walk_no_nested(f.node):
+                if not isinstance(n, ast.If) or not n.body:
+                    continue
+                st = n.body[0]
+                if not (isinstance(st, ast.Raise) and
+                        isinstance(st.exc, ast.Call) and
+                        dotted(st.exc.func) == 'CIMError' and st.exc.args):
+                    continue
+                t = n.test
+                exists = True
+                if isinstance(t, ast.UnaryOp) and isinstance(t.op, ast.Not):
+                    t, exists = t.operand, False
+                if not (isinstance(t, ast.Call) and
+                        isinstance(t.func, ast.Attribute) and
+                        t.func.attr == 'object_exists' and t.args):
+                    continue
+                # the key is a parameter of the operation (or an attribute
+                # of one): the operation's own target
+                root = t.args[0]
+                while isinstance(root, ast.Attribute):
+                    root = root.value
+                if not (isinstance(root, ast.Name) and root.id in f.params):
+                    continue
+                kind = store_kind(t.func.value, f) or (
+                    'instance' if 'instance' in norm(t.func.value)
+                    else 'class' if 'class' in norm(t.func.value)
+                    else 'qualifier' if 'qual' in norm(t.func.value)
+                    else None)
+                if kind not in ('instance', 'class', 'qualifier'):
+                    continue
+                code = norm(st.exc.args[0])
+                r.sites += 1
+                r.functions.add(f.fq)
+                want = STATUS_EXCEPTIONS.get(
+                    (f.qualname, kind, exists),
+                    STATUS_BY_EXISTENCE.get((kind, exists)))
+                if isinstance(t.args[0], ast.Attribute) and \
+                        t.args[0].attr == 'superclass' and not exists:
+                    want = 'CIM_ERR_INVALID_SUPERCLASS'
+                ok = code == want
+                r.ob(ok, '%s|%s' % (f.qualname, norm(t, 50)),
+                     {'code': code, 'store': kind, 'exists': exists})
+                if not ok:
+                    rep.finding(r, f.qualname, '%s when %s%s' % (
+                        code, '' if exists else 'not ', norm(t, 50)),
+                        'status-code', rel, st.lineno,
+                        'the refusal raised when %s is %s uses %s; for '
+                        'the target of the operation the situation "%s %s" '
+                        'is %s (DSP0200) - clients and the subscription '
+                        'manager branch on this code'
+                        % (norm(t, 50), exists, code, kind,
+                           'exists' if exists else 'does not exist', want))
+    if r.sites < 3:
+        raise AnalysisError('%s: only %d existence-guarded refusals'
+                            % (rid, r.sites))
